@@ -171,7 +171,10 @@ func features() sqlgen.Features {
 	f := sqlgen.AllFeatures()
 	f.Merge = hx.Allowed("c15.merge")
 	f.DDLExtras = f.Merge // MERGE with a sub-query source
-	f.MySQL, f.NoMatchAgainst, f.NoShowDescribe = hx.Allowed("c15.mysql_forms"), true, true // REPLACE INTO, ON DUPLICATE KEY UPDATE
+	f.MySQL, f.NoShowDescribe = hx.Allowed("c15.mysql_forms"), true // REPLACE INTO, ON DUPLICATE KEY UPDATE, MATCH .. AGAINST
+	f.NoMatchAgainst = !hx.Allowed("c15.match_against")
+	f.OrderByAlias = hx.Allowed("c15.order_by_alias")
+	f.KeywordValues = hx.Allowed("c15.keyword_values")
 	f.NoWindowFrame = !hx.Allowed("c15.window_frame_children") // frame offsets are not traversed (C14 finding)
 	return f
 }
